@@ -471,31 +471,95 @@ func (w *Worker) parseFloat(fr *frame, s Str) Value {
 		}
 		return Tuple{smt.FPC(f), Iface{}}
 	}
-	// symbolic: supported for strings of decimal digits only (length <= 15, exact in float64):
-	// fork on "all bytes are digits"; otherwise error (covers letters; signs, dots and
-	// exponents are excluded by an assumption noted in the evidence).
+	// symbolic numeral. Model (stated in the evidence):
+	//  - hexadecimal floats ([+-]0x...) are excluded by assumption;
+	//  - a string of decimal digits (<= 15) has its exact value;
+	//  - any other string accepted by the decimal float grammar, or inf/infinity/nan,
+	//    parses to an uninterpreted value of its bytes;
+	//  - everything else is a syntax error.
 	n := s.Len()
-	if n == 0 || n > 15 {
-		panic(engineError("ParseFloat of a symbolic string of unsupported length"))
+	if n == 0 {
+		return Tuple{smt.FPC(0), mkErr(fr, Str{S: "strconv.ParseFloat: parsing \"\": invalid syntax"})}
+	}
+	if n > 15 {
+		panic(engineError("ParseFloat of a symbolic string longer than 15 bytes"))
+	}
+	ts := s.Terms()
+	is := func(b *smt.Term, cs string) *smt.Term {
+		r := smt.False
+		for i := 0; i < len(cs); i++ {
+			r = smt.Or(r, smt.Eq(b, smt.BVC(8, uint64(cs[i]))))
+		}
+		return r
+	}
+	digit := func(b *smt.Term) *smt.Term { return smt.And(smt.ULe(smt.BVC(8, '0'), b), smt.ULe(b, smt.BVC(8, '9'))) }
+	// hex prefix
+	hex := smt.False
+	if n >= 2 {
+		hex = smt.And(smt.Eq(ts[0], smt.BVC(8, '0')), is(ts[1], "xX"))
+	}
+	if n >= 3 {
+		hex = smt.Or(hex, smt.AndN(is(ts[0], "+-"), smt.Eq(ts[1], smt.BVC(8, '0')), is(ts[2], "xX")))
+	}
+	if c, ok := hex.ConstBool(); !ok || c {
+		w.ex.noteOnce("ParseFloat model: symbolic numerals starting with a hexadecimal prefix are excluded by assumption")
+		w.assume(fr, smt.Not(hex))
 	}
 	allDigits := smt.True
-	someSpecial := smt.False
-	for _, b := range s.Terms() {
-		allDigits = smt.And(allDigits, smt.And(smt.ULe(smt.BVC(8, '0'), b), smt.ULe(b, smt.BVC(8, '9'))))
-		for _, c := range []byte("+-.eExXpPiInNaAfF_") {
-			someSpecial = smt.Or(someSpecial, smt.Eq(b, smt.BVC(8, uint64(c))))
-		}
+	for _, b := range ts {
+		allDigits = smt.And(allDigits, digit(b))
 	}
 	if w.path.branch(allDigits) {
 		val := smt.BVC(64, 0)
-		for _, b := range s.Terms() {
+		for _, b := range ts {
 			val = smt.Add(smt.Mul(val, smt.BVC(64, 10)), smt.ZExt(smt.Sub(b, smt.BVC(8, '0')), 64))
 		}
-		f := smt.UIToFP(val)
-		return Tuple{f, Iface{}}
+		return Tuple{smt.UIToFP(val), Iface{}}
 	}
-	w.ex.noteOnce("ParseFloat model: symbolic numerals are digit strings; bytes +-.eExXpPiInNaAfF_ in symbolic numerals are excluded by assumption")
-	w.assume(fr, smt.Not(someSpecial))
+	// decimal grammar as a DFA over the byte terms (no forking)
+	const nst = 9
+	st := make([]*smt.Term, nst)
+	for i := range st {
+		st[i] = smt.False
+	}
+	st[0] = smt.True
+	for _, b := range ts {
+		d, sg, dot, e := digit(b), is(b, "+-"), smt.Eq(b, smt.BVC(8, '.')), is(b, "eE")
+		nx := make([]*smt.Term, nst)
+		for i := range nx {
+			nx[i] = smt.False
+		}
+		add := func(to int, c *smt.Term) { nx[to] = smt.Or(nx[to], c) }
+		add(1, smt.And(st[0], sg))
+		add(2, smt.And(smt.OrN(st[0], st[1], st[2]), d))
+		add(4, smt.And(smt.Or(st[0], st[1]), dot))
+		add(3, smt.And(st[2], dot))
+		add(6, smt.And(smt.OrN(st[2], st[3], st[5]), e))
+		add(5, smt.And(smt.OrN(st[3], st[4], st[5]), d))
+		add(7, smt.And(st[6], sg))
+		add(8, smt.And(smt.OrN(st[6], st[7], st[8]), d))
+		st = nx
+	}
+	valid := smt.OrN(st[2], st[3], st[5], st[8])
+	// specials
+	word := func(off int, wd string) *smt.Term {
+		if n-off != len(wd) {
+			return smt.False
+		}
+		r := smt.True
+		for i := 0; i < len(wd); i++ {
+			r = smt.And(r, smt.Eq(lowerTerm(ts[off+i]), smt.BVC(8, uint64(wd[i]))))
+		}
+		return r
+	}
+	special := smt.OrN(word(0, "inf"), word(0, "infinity"), word(0, "nan"))
+	if n >= 1 {
+		special = smt.Or(special, smt.And(is(ts[0], "+-"), smt.Or(word(1, "inf"), word(1, "infinity"))))
+	}
+	if w.path.branch(smt.Or(valid, special)) {
+		v := smt.UF(sanitize(fmt.Sprintf("parsefloat_%d", n)), smt.FP64, ts...)
+		return Tuple{v, Iface{}}
+	}
 	return Tuple{smt.FPC(0), mkErr(fr, Str{S: "strconv.ParseFloat: parsing: invalid syntax"})}
 }
 
